@@ -1,9 +1,14 @@
 #!/usr/bin/env python3
-"""usage: show.py <facts.json> <path-substring> [--mir]"""
+"""usage: show.py <facts.json | crate name> <path-substring> [--mir]"""
 import json, sys
 sys.path.insert(0, '/verif/lib')
 import hirpp
-d = json.load(open(sys.argv[1]))
+import glob, os
+arg = sys.argv[1]
+if not os.path.isfile(arg):
+    dirs = sorted(glob.glob('/verif/.cache/facts/*/default'), key=os.path.getmtime)
+    arg = os.path.join(dirs[-1], arg + '.json')
+d = json.load(open(arg))
 pat = sys.argv[2]
 for b in d['bodies']:
     if pat in b['path']:
